@@ -13,7 +13,7 @@ ASSUMPTIONS = [
     'normalised tangents/normals: the vector being normalised is non-zero (its norm s satisfies s > 0 on the path)',
 ]
 OUTSIDE = ['degrees > 3 (quick) / 4 (thorough)', 'rational derivative orders > 2 (quick) / 3 (thorough)', 'volumes (no derivative API)']
-BOUNDS = {'quick': 'curves p<=3 orders 0..p+2 (rational: <=2), both evaluator families; surfaces degrees<=2 orders<=3 (rational <=2 on (1,2)/(2,1)); hodographs; tangent/normal; scaled shapes (net times a symbolic factor) for unit tangents / normals',
+BOUNDS = {'quick': 'curves p<=3 orders 0..p+2 (rational: <=2), both evaluator families; surfaces degrees<=2 orders<=3 (rational <=2 on (1,2)/(2,1)); hodographs; tangent/normal; scaled shapes (net times a symbolic factor) for unit tangents / normals; knot vectors times a symbolic factor (both evaluator families)',
           'thorough': 'curves p<=4 rational orders<=3; surfaces to (3,2); rational surfaces (2,2) order 2'}
 
 
